@@ -1,4 +1,6 @@
-(* Proofs for C20, part 4: on explicit-width types ABIMethodToSignature equals Entry.Signature. *)
+(* Proofs for C20, part 4: ABIMethodToSignature equals Entry.Signature on every parameter list the ABI
+   type parser accepts (aliases uint / int / fixed / ufixed are written in full by both since the fix of
+   the helper's alias branch; the guarded statements of the earlier rounds are kept as corollaries). *)
 From Coq Require Import String.
 From Coq Require Import List NArith ZArith Bool Arith Lia.
 From Coq Require Import Init.Byte.
@@ -58,6 +60,42 @@ Proof.
   destruct Ha as [->|(r & ->)]; [rewrite app_nil_r; apply until_all; exact Hs|apply until_stop; exact Hs].
 Qed.
 
+(* the text from the first '[' on is the dimensions *)
+Lemma from_lbrack_app_no a r : no_byte ch_lbrack a -> from_lbrack (a ++ r) = from_lbrack r.
+Proof. induction 1 as [|b a Hb _ IH]; [reflexivity|]. cbn [app from_lbrack]. rewrite Hb, IH. reflexivity. Qed.
+
+Lemma from_lbrack_split T :
+  let sa := splitElementaryTypeSuffix T (length (take_lower T)) in
+  from_lbrack T = snd sa.
+Proof.
+  cbv zeta. destruct (split_decomp T) as [E Ha]. destruct (take_lower_decomp T) as (rest & Er & Hl).
+  set (sa := splitElementaryTypeSuffix T (length (take_lower T))) in *.
+  assert (Hs : no_byte ch_lbrack (fst sa)).
+  { unfold sa, splitElementaryTypeSuffix. cbn [fst].
+    destruct (until_decomp ch_lbrack (skipn (length (take_lower T)) T)) as (r & _ & Hn & _). exact Hn. }
+  rewrite E at 1.
+  rewrite (from_lbrack_app_no _ _ (lower_no_lbrack _ Hl)), (from_lbrack_app_no _ _ Hs).
+  destruct Ha as [->|(r & ->)]; [reflexivity|]. cbn [from_lbrack]. rewrite byte_eqb_refl. reflexivity.
+Qed.
+
+Lemma before_lbrack_base t : before_lbrack t = base_text t.
+Proof. induction t as [|b t IH]; [reflexivity|]. cbn [before_lbrack base_text]. unfold ch_lbrack. rewrite IH. reflexivity. Qed.
+
+(* the helper's alias table against the parser's default suffixes *)
+Lemma alias_default et : In et elementary_types ->
+  match typeAliases (et_name_bytes et) with
+  | Some f => f = et_name_bytes et ++ ascii_bytes (et_default_suffix et)
+  | None => et_default_suffix et = ""%string
+  end.
+Proof.
+  intros H. cbn in H. repeat (destruct H as [<-|H]; [vm_compute; reflexivity|]). contradiction.
+Qed.
+
+Lemma alias_none et c r : In et elementary_types -> typeAliases (et_name_bytes et ++ c :: r) = None.
+Proof.
+  intros H. cbn in H. repeat (destruct H as [<-|H]; [reflexivity|]). contradiction.
+Qed.
+
 Lemma parse_elementary_shape et sfx tc :
   parse_elementary et sfx = Ok tc -> exists m n, tc = CElem et (eff_suffix et sfx) m n.
 Proof.
@@ -72,27 +110,26 @@ Proof.
 Qed.
 
 Lemma tc_string_list_ok cs : forall children,
-  Forall (fun c => forall tc, parseABIParameterComponents (erase c) = Ok tc -> explicit_widths c = true ->
+  Forall (fun c => forall tc, parseABIParameterComponents (erase c) = Ok tc ->
                               tc_string tc = Ok (component_type_string c)) cs ->
   Forall2 (fun c ch => parseABIParameterComponents (erase c) = Ok ch) cs children ->
-  forallb explicit_widths cs = true ->
   tc_string_list children = Ok (map component_type_string cs).
 Proof.
-  induction cs as [|c cs IH]; intros children HF H2 HE; inversion H2 as [|? ch ? chs P1 P2]; subst; [reflexivity|].
-  inversion HF as [|? ? Hc Hcs]; subst. cbn [forallb] in HE. apply andb_prop in HE as [Ec Ecs].
-  cbn [tc_string_list map]. rewrite (Hc _ P1 Ec). cbn [bind]. rewrite (IH _ Hcs P2 Ecs). reflexivity.
+  induction cs as [|c cs IH]; intros children HF H2; inversion H2 as [|? ch ? chs P1 P2]; subst; [reflexivity|].
+  inversion HF as [|? ? Hc Hcs]; subst.
+  cbn [tc_string_list map]. rewrite (Hc _ P1). cbn [bind]. rewrite (IH _ Hcs P2). reflexivity.
 Qed.
 
-Lemma helper_param p : forall tc,
-  parseABIParameterComponents (erase p) = Ok tc -> explicit_widths p = true ->
+Lemma helper_param_all p : forall tc,
+  parseABIParameterComponents (erase p) = Ok tc ->
   tc_string tc = Ok (component_type_string p).
 Proof.
-  induction p as [n T i x cs IH] using fparam_ind'. intros tc HP HE.
+  induction p as [n T i x cs IH] using fparam_ind'. intros tc HP.
   cbn [erase] in HP. rewrite parse_unfold in HP. cbv zeta in HP.
-  pose proof (split_decomp T) as SD. pose proof (base_text_split T) as BT. cbv zeta in SD, BT.
+  pose proof (split_decomp T) as SD. pose proof (base_text_split T) as BT. pose proof (from_lbrack_split T) as FL.
+  cbv zeta in SD, BT, FL.
   set (sa := splitElementaryTypeSuffix T (length (take_lower T))) in *.
   destruct SD as [ET Harr].
-  cbn [explicit_widths] in HE. apply andb_prop in HE as [HA HEc].
   destruct (parse_base (take_lower T) (fst sa) (map erase cs)) as [base| |] eqn:EB; cbn [bind] in HP; try discriminate.
   (* rendering of the base, then of the dimensions *)
   assert (exists sbase, tc_string base = Ok sbase /\ component_type_string (FParam n T i x cs) = sbase ++ snd sa)
@@ -108,7 +145,7 @@ Proof.
         induction EL as [|a c l chs Ha _ IHl]; intros [|c0 cs] El; try discriminate; constructor.
         - cbn in El. injection El as -> _. exact Ha.
         - apply IHl. cbn in El. injection El as _ ->. reflexivity. }
-      rewrite tc_string_tuple, (tc_string_list_ok cs children IH F2 HEc). cbn [bind].
+      rewrite tc_string_tuple, (tc_string_list_ok cs children IH F2). cbn [bind].
       eexists. split; [reflexivity|].
       assert (Efs : fst sa = []) by (destruct (fst sa); [reflexivity|discriminate]).
       rewrite Efs, Etu in ET. cbn [app] in ET.
@@ -127,17 +164,45 @@ Proof.
         apply has_prefix_take_lower in HPf; [|reflexivity].
         rewrite Hname in HPf. pose proof (et_name_not_tuple et Hin) as X. unfold tuple_b in X. congruence. }
       cbn [component_type_string]. rewrite NT.
-      (* explicit width: the suffix is spelled out *)
-      assert (Eff : eff_suffix et (fst sa) = fst sa).
-      { unfold eff_suffix. destruct (fst sa) as [|c r] eqn:Ef; [|reflexivity]. cbn [is_nil].
-        rewrite BT, app_nil_r, Hname in HA. apply negb_true_iff in HA.
-        rewrite (explicit_default et Hin HA). reflexivity. }
-      rewrite Eff, <- Hname, <- app_assoc. exact ET. }
+      (* an alias is written in full: the default suffix of the parser *)
+      unfold alias_in_full. rewrite before_lbrack_base, BT, FL, Hname.
+      unfold eff_suffix. destruct (fst sa) as [|c r] eqn:Ef; cbn [is_nil].
+      + rewrite app_nil_r. pose proof (alias_default et Hin) as AD.
+        destruct (typeAliases (et_name_bytes et)) as [f|].
+        * rewrite AD. reflexivity.
+        * rewrite AD. cbn [ascii_bytes]. rewrite app_nil_r. rewrite ET at 1. rewrite Hname. reflexivity.
+      + rewrite (alias_none et c r Hin). rewrite ET at 1. rewrite Hname, <- app_assoc. reflexivity. }
   destruct (negb (is_nil (snd sa))) eqn:En.
   - rewrite (parseArrays_renders _ _ _ _ _ HP Sb), Cs. reflexivity.
   - injection HP as <-. apply negb_false_iff in En.
     assert (snd sa = []) as Ea by (destruct (snd sa); [reflexivity|discriminate]).
     rewrite Sb, Cs, Ea, app_nil_r. reflexivity.
+Qed.
+
+Lemma helper_param p : forall tc,
+  parseABIParameterComponents (erase p) = Ok tc -> explicit_widths p = true ->
+  tc_string tc = Ok (component_type_string p).
+Proof. intros tc H _. exact (helper_param_all p tc H). Qed.
+
+Lemma sig_strings_helper_all l :
+  Forall parses l ->
+  sig_strings l = Ok (map (fun p => ABIArgumentToTypeString (fp_type p) (fp_comps p)) l).
+Proof.
+  induction l as [|p l IH]; intros HP; [reflexivity|].
+  inversion HP as [|? ? [tc Hp] Hl]; subst.
+  cbn [sig_strings map]. unfold SignatureString, Validate. rewrite Hp. cbn [bind].
+  rewrite (helper_param_all p tc Hp). cbn [bind]. rewrite (IH Hl). cbn [bind].
+  destruct p as [n t i x cs]. reflexivity.
+Qed.
+
+(* the stand-alone helper returns the entry's own signature, for every parameter list the ABI type
+   parser accepts (aliases included) *)
+Theorem signature_helper_all e :
+  Forall parses (e_inputs e) -> SignatureCtx e = Ok (ABIMethodToSignature e).
+Proof.
+  intros HP. unfold SignatureCtx, ABIMethodToSignature.
+  rewrite (sig_strings_helper_all _ HP). cbn [bind].
+  destruct (e_inputs e); reflexivity.
 Qed.
 
 Lemma sig_strings_helper l :
